@@ -59,13 +59,67 @@ def _rect(t):
 def _case(draw, tier, names):
     c = draw(catgen.cat_case(names, max_rows=5 if tier == "quick" else 9))
     c["wrappers"] = [draw(st.sampled_from(sorted(WRAPPERS))) for _ in c["sources"]]
+    # how the result is consumed before it is iterated
+    c["consumer"] = draw(st.sampled_from(["iterate", "iterate"] + CONSUMERS))
     return c
 
 
-def _run(e, S, passes=2):
+CONSUMERS = ["len-first", "header-first", "look-first", "contains-first", "getitem-first", "deepcopy", "copy", "pickle", "abandon-first"]
+
+
+class _Differs(Exception):
+    pass
+
+
+def _consume(view, how, plain):
+    """Read the result the way a program might before iterating it; returns the view to iterate."""
+    import copy
+    import pickle
+    if how == "len-first":
+        n = len(view)
+        if n != len(plain):
+            raise _Differs("len(view) is %r, a pass delivers %d rows (header included)" % (n, len(plain)))
+    elif how == "header-first":
+        h = tuple(etl.header(view))
+        if h != tuple(plain[0]):
+            raise _Differs("header(view) is %r, a pass starts with %r" % (h, plain[0]))
+    elif how == "look-first":
+        repr(etl.look(view, limit=2))
+    elif how == "abandon-first":
+        it = iter(view)
+        for _ in range(2):
+            next(it, None)
+        it.close() if hasattr(it, "close") else None
+    elif how == "contains-first":
+        # (a view may deliver its rows as lists or as tuples: `in` compares with ==)
+        if len(plain) > 1 and isinstance(plain[1], tuple) and not (plain[1] in view or list(plain[1]) in view):
+            raise _Differs("%r in view is False, yet a pass delivers that row" % (plain[1],))
+    elif how == "getitem-first":
+        f = plain[0][0] if plain and plain[0] else None
+        if isinstance(f, str) and list(map(str, plain[0])).count(f) == 1:
+            col = list(view[f])
+            exp = list(etl.values([list(plain[0])] + [list(r) for r in plain[1:]], f))
+            if col != exp:
+                raise _Differs("view[%r] gives %r, the column of that name in a pass is %r" % (f, col, exp))
+    elif how == "deepcopy":
+        return copy.deepcopy(view)
+    elif how == "copy":
+        return copy.copy(view)
+    elif how == "pickle":
+        try:
+            data = pickle.dumps(view)
+        except Exception:
+            return view     # (views holding lambdas cannot be pickled at all: nothing to check)
+        return pickle.loads(data)
+    return view
+
+
+def _run(e, S, passes=2, consumer="iterate", plain=None):
     res = e.build(S)
     if e.has("nonview"):
         return [e.norm(res)]
+    if consumer != "iterate" and plain and isinstance(res, etl.Table):
+        res = _consume(res, consumer, plain)
     return [[tuple(r) if isinstance(r, (list, tuple)) else r for r in res] for _ in range(passes)]
 
 
@@ -89,25 +143,31 @@ def check(case, ctx):
     for w in used:
         ctx.label("through:" + w)
     ctx.nontrivial(any(len(t) > 1 for t in case["sources"]))
+    how = case.get("consumer", "iterate")
+    ctx.label("consumer:" + how)
     try:
-        outs = _run(e, W)
+        outs = _run(e, W, consumer=how, plain=plain)
+    except _Differs as ex:
+        return Fail("upstream/%s/%s/differs" % (e.name, how), "%s (inputs through %s, sources %r)" % (ex, used, case["sources"]))
     except Exception as ex:
-        return exc_fail("upstream/%s/%s" % (e.name, "+".join(used)), ex)
+        return exc_fail("upstream/%s/%s" % (e.name, "+".join(used + [how])), ex)
     for p, got in enumerate(outs):
         try:
             same = got == plain
         except Exception:
             same = False
         if not same:
-            return Fail("upstream/%s/%s/differs" % (e.name, "+".join(used)), "pass %d with the inputs handed in through %s gave %r; on the plain "
-                        "lists the result is %r (sources %r)" % (p, used, got, plain, case["sources"]))
+            return Fail("upstream/%s/%s/differs" % (e.name, "+".join(used)), "pass %d with the inputs handed in through %s (consumer: %s) gave %r; on the plain "
+                        "lists the result is %r (sources %r)" % (p, used, how, got, plain, case["sources"]))
     return None
 
 
 RULE = (" Sub 'upstream' (pv/upstream.py): for the catalogue entries of this family, each input is handed in through a neutral "
         "petl view that passes every row on unchanged (wrap, keep-everything select / selectusingcontext / convert(where=), "
         "open rowslice, head, cache, tuple rows; for rectangular tables also cut of all fields, one-table cat, addfield+cutout): "
-        "both passes must equal the result on the plain lists. Non-trivial = a source has data rows.")
+        "both passes must equal the result on the plain lists. Before the passes the result may be consumed the way programs do: "
+        "len(view), header(view), look(), `row in view`, view['field'], an abandoned pass, a copy / deep copy / pickle of the view - "
+        "each must agree with what the passes deliver. Non-trivial = a source has data rows.")
 
 
 def sub(pid, quick=2500, thorough=30000, names=None):
